@@ -125,6 +125,52 @@ def run_driver(binary, args, stdin_path=None, timeout=3600, env=None, ok_codes=(
     return recs, p.stdout + p.stderr
 
 
+def run_sharded(binary, args_fn, shards=None, timeout=3600, env=None):
+    """Run `shards` copies of a driver in parallel (args_fn(i, n) -> argv); returns
+    the concatenated result records.  Node scratch directories go to /dev/shm
+    when available (the drivers fsync a lot)."""
+    import concurrent.futures
+    n = shards or min(16, os.cpu_count() or 4)
+    e = dict(env or {})
+    if os.path.isdir("/dev/shm") and "TMPDIR" not in e:
+        tmp = os.path.join("/dev/shm", "verif-" + os.path.basename(scratch()))
+        os.makedirs(tmp, exist_ok=True)
+        e["TMPDIR"] = tmp
+    try:
+        with concurrent.futures.ThreadPoolExecutor(max_workers=n) as ex:
+            futs = [ex.submit(run_driver, binary, args_fn(i, n), None, timeout, e) for i in range(n)]
+            res = [f.result() for f in futs]
+    finally:
+        if "TMPDIR" in e and e["TMPDIR"].startswith("/dev/shm/verif-"):
+            shutil.rmtree(e["TMPDIR"], ignore_errors=True)
+    recs = []
+    for r, _ in res:
+        recs += r
+    return merge_summaries(recs)
+
+
+def merge_summaries(recs):
+    """Several shard summaries -> one (numeric fields added, samples kept)."""
+    out = [r for r in recs if r.get("kind") != "summary"]
+    sums = [r for r in recs if r.get("kind") == "summary"]
+    if sums:
+        m = dict(kind="summary", samples=[])
+        for s_ in sums:
+            for k, v in s_.items():
+                if k in ("kind",):
+                    continue
+                if k == "samples":
+                    m["samples"] += [x for x in (v or []) if x is not None][:1]
+                elif isinstance(v, (int, float)) and not isinstance(v, bool):
+                    m[k] = m.get(k, 0) + v
+                else:
+                    m.setdefault(k, v)
+        m["samples"] = m["samples"][:3]
+        m["shards"] = len(sums)
+        out.append(m)
+    return out
+
+
 # ---------------------------------------------------------------------------
 # TLC
 
@@ -293,7 +339,9 @@ class Check:
         self.assumptions = []
         self.violations = []      # (key, what, case)
         self.known_hit = {}
-        self.known = [k for k in load_known() if k.get("property") == pid and k.get("status", "open") == "open"]
+        # a driver shared by several properties reports each violation under the
+        # property its key names (key = "<Cxx>:..."); findings are matched by key
+        self.known = [k for k in load_known() if k.get("status", "open") == "open"]
         self.notes = []
 
     # -- model side
@@ -364,7 +412,7 @@ class Check:
             else:
                 new.append((key, what, case))
         for key, kf in sorted(self.known_hit.items()):
-            print("KNOWN-FINDING: property=%s %s [%s]" % (self.pid, kf.get("what", ""), key))
+            print("KNOWN-FINDING: property=%s %s [%s]" % (kf.get("property", self.pid), kf.get("what", ""), key))
         rc = 0
         if new:
             rc = 1
@@ -373,7 +421,8 @@ class Check:
                 bykey.setdefault(key, []).append(dict(key=key, what=what, case=case))
             for key in sorted(bykey):
                 p = self._write_replay("violation-" + re.sub(r"[^A-Za-z0-9_.-]+", "_", key)[:60], bykey[key][:10])
-                print("VIOLATION property=%s replay=%s" % (self.pid, p))
+                m = re.match(r"^(C\d{2,3}):", key)
+                print("VIOLATION property=%s replay=%s" % (m.group(1) if m else self.pid, p))
                 print("  key=%s count=%d first: %s" % (key, len(bykey[key]), bykey[key][0]["what"][:600]))
         cov = self.cov
         if exhaustive is not None:
